@@ -157,6 +157,12 @@ def rule_formula(prog, rep):
         c = prog.cls(q)
         compare(rep, "C07.formula", method_site(prog, c, "inverse"), f"{q}.inverse",
                 method_term(prog, c, "inverse"), eval_ref_method(prog, c, src, [X, COND]), "inverse")
+    rule_planar_activation(prog, rep)
+
+
+def rule_planar_activation(prog, rep, R="C07.formula"):
+    """_UnconditionalPlanar stores its arguments and applies tanh without a slope, leaky_relu(z, slope) with one (the
+    closed-form inverse and both log-dets assume exactly that activation)."""
     # planar: activation selected by negative_slope is None
     c = prog.cls("flowjax.bijections.planar._UnconditionalPlanar")
     fields = Interp(prog).eval_init(c, [("sym", "w"), ("sym", "u"), ("sym", "b"), ("sym", "slope")])
@@ -170,9 +176,9 @@ def rule_formula(prog, rep):
     site = method_site(prog, c, "__init__")
     for f in ("weight", "bias", "_act_scale", "negative_slope"):
         if f not in fields:
-            rep.undecided("C07.formula", site, f"_UnconditionalPlanar.{f}", "field not assigned in __init__")
+            rep.undecided(R, site, f"_UnconditionalPlanar.{f}", "field not assigned in __init__")
             continue
-        compare(rep, "C07.formula", site, f"_UnconditionalPlanar.__init__:{f}", fields[f], want[f], f"field {f}")
+        compare(rep, R, site, f"_UnconditionalPlanar.__init__:{f}", fields[f], want[f], f"field {f}")
     # the activation, as applied: a stored callable or a method - tanh(z) without a slope, leaky_relu(z, slope) with one
     Z = ("sym", "Z")
 
@@ -186,9 +192,9 @@ def rule_formula(prog, rep):
     try:
         got_act, want_act = applied(fields), applied(want)
     except Exception as e:  # noqa: BLE001
-        rep.undecided("C07.formula", site, "_UnconditionalPlanar.activation", f"activation not evaluated: {e}")
+        rep.undecided(R, site, "_UnconditionalPlanar.activation", f"activation not evaluated: {e}")
     else:
-        compare(rep, "C07.formula", site, "_UnconditionalPlanar.__init__:activation_fn", got_act, want_act,
+        compare(rep, R, site, "_UnconditionalPlanar.__init__:activation_fn", got_act, want_act,
                 "activation applied to z")
 
 
